@@ -15,8 +15,8 @@ OPEN (false of the code as it is; see known_findings.json):
 * `resolution_order` without the guard `goodT` – F-C04-4 (bindings inside a `<%block>` become locals of the
   enclosing scope), F-C04-6 (the defs of a `<%call>` believe the call body's names declared);
 * `mlocals_current` without `mlGuard` – F-C04-5 (`<% %>` blocks of anonymous blocks / call bodies update `__M_locals`);
-* `reserved_rejected` for *every* binding form – F-C04-1 (only `locally_declared` is checked), F-C04-3
-  (`render_context(**kwargs)`).
+* `reserved_rejected` for module-level `<%! %>` names and `<%namespace name=…>` – the rest of F-C04-1 (arguments and
+  def / block names are checked since the repair 347affa; `render_context(**kwargs)` since 9729b87).
 -/
 namespace MakoModel.C04
 open MakoModel.Names MakoModel.Names.Context
@@ -45,6 +45,18 @@ theorem declares_exact (c : Cfg) (t : Body) : ∀ s ∈ allScopes c t, ∀ (ul :
 /-- the `limit` argument of the cache decorator only intersects -/
 theorem declares_limit (c : Cfg) (i : Ids) (l : List Name) (x : Name) :
     x ∈ toWrite c i (some l) ↔ x ∈ toWrite c i none ∧ x ∈ l := mem_toWrite_some
+
+/-- Since the code iterates `sorted(to_write)` (regenerated flag `declaresSorted`), the emission order is fixed: it is
+the permutation of `to_write` in which adjacent names are in Python's `str` order (`nameLe`: lexicographic by code
+point); likewise the keys of `__M_locals`. -/
+theorem declares_sorted (c : Cfg) (i : Ids) (limit : Option (List Name)) :
+    Generated.Names.declaresSorted = true ∧ Generated.Names.mlocalsSorted = true ∧
+    (emitOrder c i limit).Perm (toWrite c i limit) ∧ SortedNames (emitOrder c i limit) ∧
+    (∀ a b : Name, nameLe a b = true ∨ nameLe b a = true) :=
+  ⟨by decide, by decide, perm_sortNames _, sorted_sortNames _, nameLe_total⟩
+
+example : emitOrder {} { undeclared := ["b".toList, "a".toList, "B".toList, "ab".toList] } none =
+    ["B".toList, "a".toList, "ab".toList, "b".toList] := by decide
 
 example : ∃ (c : Cfg) (t : Body) (s : Scope), s ∈ allScopes c t ∧ (toWrite c s.ids none).length = 2 :=
   ⟨{}, .leaf 1 [] ["a".toList, "b".toList, "a".toList] .nil, _, List.mem_cons_self, by decide⟩
@@ -209,53 +221,82 @@ example : (render { dicts := [[("a".toList, 7)]] } 0 [.locals 0 [("a".toList, 9)
 /-! ## reserved_rejected -/
 
 /-- the regenerated tables: `context` and `loop` are reserved, so are the names every module declares; without the
-loop context `loop` is free -/
+loop context `loop` is free; the reserved-name test of `_Identifiers.__init__` looks at these four collections;
+`render_context` checks its keyword arguments -/
 theorem reserved_table :
     contextName ∈ Generated.Names.reservedNames ∧ loopName ∈ Generated.Names.reservedNames ∧
     (∀ x ∈ Generated.Names.toplevelDeclared, x ∈ Generated.Names.reservedNames) ∧
     loopName ∉ ({ reservedLoop := false } : Cfg).reserved ∧
     (∀ x ∈ Generated.Names.reservedNames, x ≠ loopName → x ∈ ({ reservedLoop := false } : Cfg).reserved) ∧
-    Generated.Names.reservedCheckedCollections = ["locally_declared"] := by decide
+    Generated.Names.reservedCheckedCollections = ["argument_declared", "closuredefs", "locally_declared", "topleveldefs"] ∧
+    Generated.Names.renderContextChecksKwargs = true := by decide
 
-/-- In every generated scope of every template: a reserved name bound by an assignment form (`<% %>` code,
-control-line targets, `<%page args>`; also through the blocks of the scope) is found by the reserved-name test –
-compilation raises `NameConflictError`. -/
-theorem reserved_rejected_partial (c : Cfg) (t : Body) : ∀ s ∈ allScopes c t, ∀ x ∈ declsThrough s.body,
+/-- In every generated scope of every template: a reserved name the template binds there – by an assignment form
+(`<% %>` code, control-line targets, `<%page args>`; also through the blocks of the scope), as an argument of the
+def / block / call body, or as the name of the scope's def or of one of its nested defs / blocks – is found by the
+reserved-name test: compilation raises `NameConflictError`. -/
+theorem reserved_rejected_partial (c : Cfg) (t : Body) : ∀ s ∈ allScopes c t, ∀ x ∈ s.binds,
     x ∈ c.reserved → x ∈ compileConflicts c t := by
   intro s hs x hx hr
+  obtain ⟨i, hi, hc⟩ := allScopes_bind c t s hs x hx
   simp only [compileConflicts, List.mem_append, List.mem_flatMap]
-  exact Or.inr ⟨s, hs, mem_conflicts.mpr ⟨hr, allScopes_decl c t s hs x hx⟩⟩
+  exact Or.inr ⟨s, hs, i, hi, mem_conflicts.mpr ⟨hr, hc⟩⟩
 
-/-- F-C04-1: `<%def name="f(loop)">…</%def>` binds a reserved name and compiles -/
+/-- the former witness of F-C04-1 is now rejected: `<%def name="f(loop)">…</%def>` -/
+example : compileConflicts {} (.defn 1 "f".toList [loopName] [] (.leaf 2 [] [loopName] .nil) .nil) = [loopName] := by decide
+
+/-- what remains of F-C04-1: a module-level `<%! loop = 1 %>` (or `<%namespace name="loop">`) binds a reserved name
+outside every `_Identifiers` collection that is checked -/
 theorem reserved_rejected_counterexample :
-    let t : Body := .defn 1 "f".toList [loopName] [] (.leaf 2 [] [loopName] .nil) .nil
-    loopName ∈ ({} : Cfg).reserved ∧ loopName ∈ bindsDeep t ∧ compileConflicts {} t = [] := by decide
+    let c : Cfg := { moduleDeclared := [loopName], nsNames := [contextName] }
+    loopName ∈ c.reserved ∧ contextName ∈ c.reserved ∧ compileConflicts c (.leaf 1 [] [loopName] .nil) = [] := by decide
 
-/-- every render entry point that creates the `Context` itself, and `render_context` with a fresh `Context`,
-rejects a reserved key -/
-theorem render_entries_reject (reserved keys kw : List Name) (e : Entry) (fresh : Bool) (x : Name)
-    (hr : x ∈ reserved) (hk : x ∈ keys) (hf : fresh = true ∨ (e ≠ .renderContext ∧ e ≠ .defRenderContext)) :
-    ∃ l, renderEntry reserved e fresh keys kw = .nameConflict l ∧ x ∈ l := by
-  have key : ∃ l, setWithTemplate reserved (keys ++ [captureName, callerName]) = .nameConflict l ∧ x ∈ l := by
-    have hx : x ∈ reserved.filter (fun n => decide (n ∈ keys ++ [captureName, callerName])) := by
-      simp [List.mem_filter, hr, hk]
-    refine ⟨_, ?_, hx⟩
-    have : (reserved.filter (fun n => decide (n ∈ keys ++ [captureName, callerName]))).isEmpty = false := by
-      cases hl : reserved.filter (fun n => decide (n ∈ keys ++ [captureName, callerName])) with
-      | nil => rw [hl] at hx; simp at hx
+/-- every render entry point rejects a reserved name: as a key of the data (`render*`, or a fresh `Context` handed to
+`render_context`), and as a keyword argument of `render_context` -/
+theorem render_entries_reject (reserved keys kw : List Name) (e : Entry) (fresh : Bool) (x : Name) (hr : x ∈ reserved)
+    (h : (x ∈ keys ∧ (fresh = true ∨ (e ≠ .renderContext ∧ e ≠ .defRenderContext))) ∨
+         (x ∈ kw ∧ (e = .renderContext ∨ e = .defRenderContext))) :
+    ∃ l, renderEntry reserved e fresh keys kw = .nameConflict l ∧ l ≠ [] := by
+  have key : ∀ ks, x ∈ ks → ∃ l, setWithTemplate reserved ks = .nameConflict l ∧ l ≠ [] := by
+    intro ks hk
+    have hx : x ∈ reserved.filter (fun n => decide (n ∈ ks)) := by simp [List.mem_filter, hr, hk]
+    have hne : reserved.filter (fun n => decide (n ∈ ks)) ≠ [] := fun h0 => by rw [h0] at hx; simp at hx
+    refine ⟨_, ?_, hne⟩
+    have : (reserved.filter (fun n => decide (n ∈ ks))).isEmpty = false := by
+      cases hl : reserved.filter (fun n => decide (n ∈ ks)) with
+      | nil => exact absurd hl hne
       | cons a l => rfl
-    show (if (reserved.filter (fun n => decide (n ∈ keys ++ [captureName, callerName]))).isEmpty = true then Outcome.proceeds
+    show (if (reserved.filter (fun n => decide (n ∈ ks))).isEmpty = true then Outcome.proceeds
           else Outcome.nameConflict _) = _
     rw [this]
     rfl
-  cases e <;> simp only [renderEntry] <;> first
-    | exact key
-    | (rcases hf with hf | hf
-       · simp [hf]; exact key
-       · simp at hf)
+  have hkw : Generated.Names.renderContextChecksKwargs = true := by decide
+  rcases h with ⟨hk, hf⟩ | ⟨hk, he⟩
+  · have k1 := key (keys ++ [captureName, callerName]) (by simp [hk])
+    cases e <;> simp only [renderEntry] <;> first
+      | exact k1
+      | (rcases hf with hf | hf
+         · obtain ⟨l, hl, hne⟩ := k1
+           exact ⟨l, by simp [hf, hl], hne⟩
+         · simp at hf)
+  · have k2 := key kw hk
+    rcases he with rfl | rfl <;> simp only [renderEntry, hkw, if_true] <;>
+      (cases h1 : (if fresh = true then setWithTemplate reserved (keys ++ [captureName, callerName]) else Outcome.proceeds) with
+       | nameConflict l =>
+         refine ⟨l, rfl, ?_⟩
+         intro h0
+         subst h0
+         cases fresh
+         · simp at h1
+         · simp only [if_true, setWithTemplate] at h1
+           split at h1
+           · cases h1
+           · rename_i hne
+             simp only [Outcome.nameConflict.injEq] at h1
+             rw [h1] at hne
+             simp at hne
+       | proceeds => exact k2)
 
-/-- F-C04-3: `t.render_context(Context(buf), loop=1)` is accepted -/
-theorem render_context_kwargs_counterexample :
-    renderEntry ({} : Cfg).reserved .renderContext true [] [loopName] = .proceeds := by decide
+example : renderEntry ({} : Cfg).reserved .renderContext true [] [loopName] = .nameConflict [loopName] := by decide
 
 end MakoModel.C04
